@@ -5,6 +5,8 @@
 //! Simulator-owned: the datagram network (drop/dup/reorder/delay/replay), the clock used for
 //! authorisation, the SCION side (a sink recording forwarded plaintexts), registration front end.
 
+mod conc;
+
 use std::collections::{BTreeMap, BTreeSet, VecDeque};
 use std::net::SocketAddr;
 use std::sync::atomic::{AtomicU64, Ordering};
@@ -44,14 +46,14 @@ impl SnapTunAuthorization for SimAuthz {
 }
 
 /// Reference registry: two maps with the stated rules, written independently of the code under test.
-#[derive(Default)]
-struct RefRegistry {
+#[derive(Default, Clone)]
+pub(crate) struct RefRegistry {
     key_to_id: BTreeMap<String, usize>,
     id_expiry: BTreeMap<usize, u64>,
 }
 
 impl RefRegistry {
-    fn register(&mut self, key: &str, id: usize, expiry_ns: u64) {
+    pub(crate) fn register(&mut self, key: &str, id: usize, expiry_ns: u64) {
         // one identity per key: a different identity registering under this key supersedes the old one
         if let Some(old) = self.key_to_id.get(key).copied() {
             if old != id {
@@ -63,14 +65,14 @@ impl RefRegistry {
         self.key_to_id.insert(key.to_string(), id);
         self.id_expiry.insert(id, expiry_ns);
     }
-    fn purge(&mut self, now_ns: u64) {
+    pub(crate) fn purge(&mut self, now_ns: u64) {
         let dead: Vec<usize> = self.id_expiry.iter().filter(|(_, e)| **e <= now_ns).map(|(i, _)| *i).collect();
         for d in dead {
             self.id_expiry.remove(&d);
             self.key_to_id.retain(|_, v| *v != d);
         }
     }
-    fn authorised(&self, id: usize, now_ns: u64) -> bool {
+    pub(crate) fn authorised(&self, id: usize, now_ns: u64) -> bool {
         self.id_expiry.get(&id).map(|e| *e > now_ns).unwrap_or(false)
     }
 }
@@ -549,6 +551,10 @@ impl Engine for TunEngine {
         &["C09"]
     }
     fn run(&self, _prop: &str, ctx: &mut RunCtx) -> RunResult {
+        // a fifth of the runs: the registry under concurrent callers (conc.rs)
+        if ctx.ch.chance(1, 5) {
+            return conc::run_conc(ctx);
+        }
         run_c09(ctx)
     }
     fn budget(&self, _prop: &str, tier: Tier) -> Budget {
@@ -565,7 +571,7 @@ impl Engine for TunEngine {
             .into()
     }
     fn real_components(&self, _prop: &str) -> Vec<&'static str> {
-        vec!["snap_tun::server::SnapTunServer", "snap_control::server::identity_registry::IdentityRegistry", "ana-gotatun Tunn (server-side and client-side: Noise IK handshake, AEAD, anti-replay)", "ana-gotatun RateLimiter (limit unreachable)"]
+        vec!["snap_tun::server::SnapTunServer", "snap_control::server::identity_registry::IdentityRegistry", "ana-gotatun Tunn (server-side and client-side: Noise IK handshake, AEAD, anti-replay)", "ana-gotatun RateLimiter (limit unreachable)", "a fifth of the runs: IdentityRegistry alone under concurrent register / remove_expired / has_authorization tasks (hook H12: scheduling points at its write lock and state slot), linearizability against the reference registry"]
     }
     fn stub_components(&self, _prop: &str) -> Vec<&'static str> {
         vec!["datagram network between client addresses and the server", "clock used for authorisation (SimAuthz substitutes the virtual Instant)", "SCION side (sink recording forwarded plaintexts)", "control-plane front end (register is called on the registry directly; token verification is C10's subject)"]
@@ -580,7 +586,7 @@ impl Engine for TunEngine {
         ]
     }
     fn required_reach(&self, _prop: &str) -> Vec<&'static str> {
-        vec!["inbound-forwarded", "outbound-decrypted", "clock-exactly-on-expiry", "drop", "dup", "reorder", "replay", "misdeliver", "purge", "register", "lapse-then-blocked-in", "lapse-then-blocked-out"]
+        vec!["inbound-forwarded", "outbound-decrypted", "clock-exactly-on-expiry", "drop", "dup", "reorder", "replay", "misdeliver", "purge", "register", "lapse-then-blocked-in", "lapse-then-blocked-out", "oracle-registry-linearizable", "registry-operations-overlapped"]
     }
 }
 
